@@ -29,6 +29,8 @@ import LinVerif.Lemmas.C09KvLookup
 import LinVerif.Lemmas.C09KvStale
 import LinVerif.Lemmas.C09Compact
 import LinVerif.Lemmas.C09Hist
+import LinVerif.Lemmas.C09Blocks
+import LinVerif.Generated.C10
 
 namespace LinVerif.Props.C09
 open LinVerif.IdAssign LinVerif.Generated
@@ -119,6 +121,23 @@ theorem memdb_lock_tie :
 /-- the compaction merger: a NEW TrieBucket per merged bucket (`compactFiles`, not `compactFilesLeaky`) -/
 theorem kv_merger_tie :
     C09.kvMergerMergeCalls = ["model.NewTrieBucket", "trieBucket.Unmarshal", "kvWriter.Prepare", "trieBucket.Write", "kvWriter.Commit"] := by
+  decide
+
+/-- `TrieBucketBuilder.Write`: `numBlocks = ⌈len/blockSize⌉`, block `i` = `keys[i*blockSize : min(i*blockSize+blockSize, len)]`
+(`numBlocksOf` / `blocksOfBucket`); block sizes of the flush and of the compaction merge are positive constants -/
+theorem kv_trie_blocks_tie :
+    C10.trieBlockSplit = ["numBlocks := len(keys) / b.blockSize", "if len(keys)%b.blockSize != 0", "numBlocks++",
+      "for i := 0; i < numBlocks; i++", "start := i * b.blockSize", "end := start + b.blockSize", "if end > len(keys)",
+      "end = len(keys)", "Build(kvs.Keys[start:end], kvs.IDs[start:end])", "if err != nil", "if err != nil"] ∧
+    C10.trieBlockSizes = ["math.MaxInt16", "math.MaxUint16"] := by
+  decide
+
+/-- the memdb index worker: on a flush request the handler goroutine calls `PrepareFlush` itself, then starts the
+background goroutine (`go idb.handleFlush`), which only flushes and reports — or the variant `worker_verdict` refutes -/
+theorem memdb_worker_tie :
+    C09.memdbHandleCalls = (["idb.handleRow"] ++ (if currentCfg.memdbPrepareInline then ["indexDB.PrepareFlush"] else []) ++ ["idb.handleFlush"]) ∧
+    C09.memdbHandleFlushCalls.filter (· ≠ "indexDB.PrepareFlush") = ["indexDB.Flush", "event.Callback"] ∧
+    C09.memdbHandleGoFlush = 1 := by
   decide
 
 /-- the lock-free lookup path is where the bucket cache is read and filled; Flush purges it under the lock -/
@@ -524,6 +543,31 @@ theorem fresh_after_recover_index_repaired :
     (step { seqWriteThrough := true } (run { seqWriteThrough := true } ({} : Node) unsyncedHistory) (.tagValue 0 2)).2 = some (.id 2) := by
   decide
 
+/-- a "balanced" block split that does not write the remainder loses the largest names of the bucket:
+5 names in blocks of at most 2 → 3 blocks of 5/3 = 1 name; names 3 and 4 are not in the file -/
+theorem balanced_blocks_lose_names :
+    let kvs := [(0, 10), (1, 11), (2, 12), (3, 13), (4, 14)]
+    pairsFind kvs 4 = some 14 ∧ blocksFindId (blocksBalanced 2 kvs) 4 = none ∧ blocksFindId (blocksBalanced 2 kvs) 3 = none ∧
+    blocksFindId (blocksOfBucket 2 kvs) 4 = some 14 := by
+  decide
+
+/-- `PrepareFlush` from another goroutine than the row handler, landing between the two inserts of GenSeriesID
+(series 2 of metric 5): the flush persists the dictionary entry `series 2 ↦ id 1` but not the posting
+`metric 5 ∋ 1`; after a crash the NEW series 3 gets id 1 — the id the recovered dictionary uses for series 2 -/
+theorem series_prepare_between_inserts (se : Bool) :
+    let c : Cfg := { prepareSwapsEmpty := se }
+    let nd := (workerRun false c 0 {} [.row 5 1, .flush, .row 5 2]).recover
+    (nd.shards 0).series.lookup 5 2 = some 1 ∧ (nd.genSeries c 0 5 3 []).2 = .id 1 := by
+  cases se <;> decide
+
+/-- the same events with `PrepareFlush` inline: series 2 is created after the switch, is lost by the crash
+with its posting, and the new series gets an id nobody uses -/
+theorem series_prepare_inline (se : Bool) :
+    let c : Cfg := { prepareSwapsEmpty := se }
+    let nd := (workerRun true c 0 {} [.row 5 1, .flush, .row 5 2]).recover
+    (nd.shards 0).series.lookup 5 2 = none ∧ (nd.genSeries c 0 5 3 []).2 = .id 1 ∧ (nd.genSeries c 0 5 3 []).1.view (.series 0 5 2) = none := by
+  cases se <;> decide
+
 end Neg
 
 /-- what the property says about the index-entry part of `fresh_after_recover`, per variant of
@@ -630,5 +674,59 @@ theorem kv_verdict_all : ∀ v, KvVerdict v
 /repo has now (regenerated facts): proved when it re-checks under the lock and retries after a flush,
 refuted by a concrete schedule otherwise -/
 theorem concurrent_verdict : KvVerdict currentCfg.kv := kv_verdict_all _
+
+/-! ### flushed buckets are written in blocks -/
+
+/-- **flush_blocks_preserve_ids**: a flushed dictionary bucket (its (name, id) pairs in key order) is written as
+`blocksOfBucket bs` and read block by block: for ANY block size `bs > 0` every name resolves to the id it had
+when the bucket was flushed — names are neither lost nor re-bound by the block split -/
+theorem flush_blocks_preserve_ids (bs : Nat) (hbs : 0 < bs) (kvs : List (Nat × Nat)) (n : Nat) :
+    blocksFindId (blocksOfBucket bs kvs) n = pairsFind kvs n :=
+  blocks_preserve_ids bs hbs kvs n
+
+/-- the blocks hold exactly the bucket's pairs, in order -/
+theorem flush_blocks_cover {α : Type} (bs : Nat) (hbs : 0 < bs) (l : List α) : (blocksOfBucket bs l).flatten = l :=
+  blocksOfBucket_cover bs hbs l
+
+/-- the big-bucket operation of the driver (`tvrange`) is `count` GenTagValueID calls in a row -/
+theorem tag_value_range_is_iterated_gen (c : Cfg) (nd : Node) (tk lo k : Nat)
+    (hnew : (nd.genTagValueRange c tk lo k).1.tagValue.lookup tk (lo + k) = none) :
+    (nd.genTagValueRange c tk lo (k + 1)).1 = ((nd.genTagValueRange c tk lo k).1.genTagValueID c tk (lo + k)).1 ∧
+    ((nd.genTagValueRange c tk lo k).1.genTagValueID c tk (lo + k)).2 = .id ((nd.genTagValueRange c tk lo (k + 1)).2 + k) :=
+  genTagValueRange_succ c nd tk lo k hnew
+
+/-! ### the memdb index worker -/
+
+/-- **worker_histories_are_sequential**: with `PrepareFlush` inline in the handler goroutine (`memdb_worker_tie`),
+what the worker does with any stream of rows and flush requests is a sequential history of `run` — `PrepareFlush`
+is atomic with respect to `GenSeriesID` BECAUSE both run on the one handler goroutine; `stable`, `injective`,
+`recover_ids`, `fresh_after_recover` then speak about the worker -/
+theorem worker_histories_are_sequential (c : Cfg) (shard : Nat) (evs : List WEvent) (nd : Node) :
+    workerRun true c shard nd evs = run c nd (evs.flatMap (WEvent.ops shard)) := by
+  unfold workerRun
+  induction evs generalizing nd with
+  | nil => rfl
+  | cons e rest ih =>
+    cases e with
+    | row m ts =>
+      simp only [workerGo, List.flatMap_cons, WEvent.ops, List.cons_append, List.nil_append, run, step]
+      exact ih _
+    | flush =>
+      simp only [workerGo, List.flatMap_cons, WEvent.ops, List.cons_append, List.nil_append, run, step, if_true]
+      exact ih _
+
+def WorkerVerdict : Bool → Prop
+  | true => ∀ (c : Cfg) (shard : Nat) (evs : List WEvent) (nd : Node),
+      workerRun true c shard nd evs = run c nd (evs.flatMap (WEvent.ops shard))
+  | false => ∀ se : Bool,
+      let c : Cfg := { prepareSwapsEmpty := se }
+      let nd := (workerRun false c 0 {} [.row 5 1, .flush, .row 5 2]).recover
+      (nd.shards 0).series.lookup 5 2 = some 1 ∧ (nd.genSeries c 0 5 3 []).2 = .id 1
+
+/-- **worker_verdict**: decided for the goroutine in which /repo's worker calls `PrepareFlush` now -/
+theorem worker_verdict : WorkerVerdict currentCfg.memdbPrepareInline := by
+  cases h : currentCfg.memdbPrepareInline with
+  | true => exact worker_histories_are_sequential
+  | false => exact Neg.series_prepare_between_inserts
 
 end LinVerif.Props.C09
